@@ -209,6 +209,101 @@ def fstring_b(out, tier, scratch, rng):
             fstringb_runs_replayed=agree + dis, fstringb_runs_agree=agree)
 
 
+CB_CH = {'q': "'", 'd': '"', 't': 't', 'w': ' ', 'eq': "\\'", 'ed': '\\"', 'o': '(', 'c': ')'}
+CB_TERM = {'N': '\n', 'BN': '\\\n'}
+CB_INVS = ['Accounted', 'StringShape', 'ErrorAtEnd', 'ContConsistent', 'EnvOk']
+
+
+def contstr_b(out, tier, scratch, rng):
+    """ContStrB (line-at-a-time model of ordinary / triple-quoted / continued strings): design invariants explored
+    exhaustively; real token streams of every line of <= 3 atoms and of random 1-4 line texts against Predict;
+    simulated runs replayed into the real tokenizer."""
+    import itertools
+    import json
+    from harness import record, tlc
+    from parso.python.tokenize import tokenize
+    from parso.utils import parse_version_string
+    d = scratch.sub('cb')
+    cb = {'maxlen': 3, 'maxlines': 2, 'hist': False, 'maxind': 3, 'mode': 'explore', 'traces': []}
+    cfg = 'SPECIFICATION Spec\nCHECK_DEADLOCK FALSE\n' + ''.join('INVARIANT %s\n' % i for i in CB_INVS)
+    # every pair of lines of <= 3 atoms (a triple quote needs 3); thorough: also every 4 lines of <= 2 atoms
+    for bi, (ml, mn) in enumerate([(3, 2)] if tier == 'quick' else [(3, 2), (2, 4)]):
+        cb.update(maxlen=ml, maxlines=mn)
+        tlc.prepare(d, ['TokEnv', 'ContStrB'], {'cb.json': json.dumps(cb)})
+        res = tlc.run(d, 'ContStrB', cfg, workers=4, timeout=3000)
+        out.add('states', res.distinct)
+        out.add('transitions', res.generated)
+        if res.violated:
+            out.drift.append('ContStrB violates %s: %s' % (res.violated, res.out[-600:]))
+    raised = {}
+
+    def real(lines, ver):
+        text = ''.join(''.join(CB_CH[a] for a in ln) + CB_TERM[t] for ln, t in lines)
+        try:
+            return text, [[t.type.name, list(t.string), t.start_pos[0], t.start_pos[1], list(t.prefix)]
+                          for t in tokenize(text, version_info=parse_version_string(ver))]
+        except Exception as e:  # noqa: the real tokenizer is total (C09): a raise is a violation, not drift
+            k = record.exc_key(e)
+            if k not in raised:
+                raised[k] = (text, ver)
+                out.violation('NeverFails|' + k, 'TokenStream.NeverFails:raised', {'text': text, 'version': ver, 'exc': k},
+                              {'kind': 'tokens', 'trace': {'text': text, 'ver': ver}})
+            return text, []
+    A = sorted(CB_CH)
+    traces = []
+    texts = {}
+    for k in range(0, 4):
+        for ls in itertools.product(A, repeat=k):
+            for t in ('N', 'BN'):
+                text, toks = real([(ls, t)], '3.8')
+                traces.append({'id': len(traces) + 1, 'lines': [[list(ls), t]], 'toks': toks})
+                texts[len(traces)] = text
+    target = len(traces) + (20000 if tier == 'quick' else 200000)
+    while len(traces) < target:
+        lines = []
+        for _ in range(rng.choice([1, 2, 2, 3, 4])):
+            ln = [rng.choice(A) for _ in range(rng.randrange(0, 8))]
+            if rng.random() < .3:
+                ln = ln[:2] + [rng.choice('qd')] * 3 + ln[2:]
+            lines.append((ln, rng.choice(['N', 'N', 'BN'])))
+        text, toks = real(lines, rng.choice(['3.6', '3.8', '3.12', '3.13']))
+        traces.append({'id': len(traces) + 1, 'lines': [[list(l), t] for l, t in lines], 'toks': toks})
+        texts[len(traces)] = text
+    acc = rej = 0
+    for i in range(0, len(traces), 40000):
+        dd = scratch.sub('cbt%d' % i)
+        cb.update(mode='trace', traces=traces[i:i + 40000], maxlen=0, maxlines=0)
+        tlc.prepare(dd, ['TokEnv', 'ContStrB'], {'cb.json': json.dumps(cb)})
+        r = tlc.run(dd, 'ContStrB', 'SPECIFICATION Spec\nCHECK_DEADLOCK FALSE\n', workers=1, timeout=1800)
+        summ = r.printed('SUMMARY')
+        if not summ:
+            raise tlc.TLCError('ContStrB trace run did not finish: ' + r.out[-800:])
+        acc += summ[-1][1]
+        rej += summ[-1][2]
+        for x in r.printed('REJECT')[:3]:
+            out.drift.append('ContStrB and the real tokenizer disagree (%s) on %r' % (x[3], texts.get(x[1])))
+        out.add('states', r.distinct)
+        out.add('transitions', r.generated)
+    ds = scratch.sub('cbs')
+    cb.update(mode='explore', traces=[], maxlen=2, maxlines=4, hist=True)
+    tlc.prepare(ds, ['TokEnv', 'ContStrB'], {'cb.json': json.dumps(cb)})
+    sim = tlc.run(ds, 'ContStrB', cfg, workers=2, simulate='num=%d' % (300 if tier == 'quick' else 4000), depth=6,
+                  seed=rng.randrange(1 << 30), timeout=900)
+    agree = dis = 0
+    for run_ in sim.printed('CRUN'):
+        lines, want = run_[1], run_[2]
+        text, got = real([(list(ln[0]), ln[1]) for ln in lines], '3.9')
+        want = [[t[0], list(t[1]), t[2], t[3], list(t[4])] for t in want]
+        if want == got:
+            agree += 1
+        else:
+            dis += 1
+            if dis <= 3:
+                out.drift.append('ContStrB run and the real tokenizer disagree on %r' % text)
+    out.cov(contstrb_exhaustive_states=res.distinct, contstrb_traces_accepted=acc, contstrb_traces_rejected=rej,
+            contstrb_runs_replayed=agree + dis, contstrb_runs_agree=agree)
+
+
 def classify(rej):
     """cause key of a rejected observation"""
     r = rej['reject']
@@ -260,6 +355,7 @@ def run(tier):
                             'positions: only \\n, \\r\\n, \\r are line breaks, a leading BOM has zero width']
         tokenizer_b(out, tier, scratch, rng)
         fstring_b(out, tier, scratch, rng)
+        contstr_b(out, tier, scratch, rng)
         bind = selftest.binding_tokens(scratch.sub('bind'))
         out.cov(binding_demonstrated=bind)
         if not bind['ok']:
